@@ -264,3 +264,110 @@ func NormLockStep(src []byte) byte {
 // NormSum: commutative sums are one term.
 func NormSumA(a, b, c int) int { return (a + b) + c }
 func NormSumB(a, b, c int) int { return c + (b + a) }
+
+// --- round-4 primitives ---
+
+// NormStrideGood: even length known, step two: s[i+1] is in range. NormStrideBad: the length is
+// not known to be even when the access happens.
+func NormStrideGood(s string) int {
+	if len(s)%2 == 1 {
+		return -1
+	}
+	n := 0
+	for i := 0; i < len(s); i += 2 {
+		n += int(s[i]) + int(s[i+1])
+	}
+	return n
+}
+
+func NormStrideBad(s string) int {
+	n := 0
+	for i := 0; i < len(s); i += 2 {
+		n += int(s[i]) + int(s[i+1])
+	}
+	if len(s)%2 == 1 {
+		return -1
+	}
+	return n
+}
+
+// NormEdgeGood: the hint is used only when it is in range, otherwise 0 (the list is not empty).
+// NormEdgeBad: the comparison is off by one.
+func NormEdgeGood(p []int, hint int) int {
+	if len(p) == 0 || hint < 0 {
+		return 0
+	}
+	if hint >= len(p) {
+		hint = 0
+	}
+	return p[hint]
+}
+
+func NormEdgeBad(p []int, hint int) int {
+	if len(p) == 0 || hint < 0 {
+		return 0
+	}
+	if hint > len(p) {
+		hint = 0
+	}
+	return p[hint]
+}
+
+// NormMode: a helper with a selector parameter inlined with a constant argument: only the
+// selected arm is live.
+type modeRec struct{ a, b, c int }
+
+func NormMode(v int) modeRec {
+	return inlSetMode(2, v)
+}
+
+func inlSetMode(which, v int) modeRec {
+	var r modeRec
+	switch which {
+	case 1:
+		r.a = v
+	case 2:
+		r.b = v
+	case 3:
+		r.c = v
+	}
+	return r
+}
+
+// NormTable: membership in a read-only table under a pinned key.
+var normStringKinds = map[int]bool{3: true, 5: true}
+
+func NormTable(k int) int {
+	if normStringKinds[k] {
+		return 1
+	}
+	return 0
+}
+
+// NormMergedErr: the check's verdict survives a later conditional overwrite of err.
+func NormMergedErr(s []int, i int, w func() error) int {
+	err := inlCheckIndex(s, i)
+	if err == nil && w != nil {
+		err = w()
+	}
+	if err != nil {
+		return -1
+	}
+	return s[i]
+}
+
+// NormMergedErrBad: the overwrite is unconditional, the verdict is lost.
+func NormMergedErrBad(s []int, i int, w func() error) int {
+	err := inlCheckIndex(s, i)
+	if w != nil {
+		err = w()
+	}
+	if err != nil {
+		return -1
+	}
+	return s[i]
+}
+
+// NormClone / NormCloneBad: clone idioms.
+func NormClone(b []byte) []byte    { return append(b[:0:0], b...) }
+func NormCloneBad(b []byte) []byte { return append(b[:0], b...) }
